@@ -1059,6 +1059,77 @@ func (c *TCPConn) CloseWrite() error {
 	return nil
 }
 
+// TLSConn stands in for crypto/tls.Conn in instrumented code (the rewriter turns every mention of tls.Conn into this
+// type; a simulated listener in TLS mode hands its connections out wrapped in it). There is no cryptography: the
+// handshake is whatever the simulated transport makes of it (simnet: the server side waits for a four-byte client
+// hello), which is enough for what the properties can depend on — a handshake blocks until the peer speaks, honours
+// the connection's deadlines and its context, can fail, and happens on first use if nobody asked for it.
+type TLSConn struct {
+	net.Conn
+	hsDone bool
+	hsErr  error
+}
+
+// Handshaker is what a simulated transport implements to play the peer's part of the handshake.
+type Handshaker interface {
+	SimHandshake(ctx context.Context) error
+}
+
+func (c *TLSConn) handshaker() Handshaker {
+	var inner net.Conn = c.Conn
+	for i := 0; i < 4 && inner != nil; i++ {
+		if h, ok := inner.(Handshaker); ok {
+			return h
+		}
+		if t, ok := inner.(*TCPConn); ok {
+			inner = t.Conn
+			continue
+		}
+		break
+	}
+	return nil
+}
+
+func (c *TLSConn) Handshake() error { return c.HandshakeContext(context.Background()) }
+
+func (c *TLSConn) HandshakeContext(ctx context.Context) error {
+	if c.hsDone {
+		return c.hsErr
+	}
+	if h := c.handshaker(); h != nil {
+		c.hsErr = h.SimHandshake(ctx)
+	}
+	c.hsDone = true
+	return c.hsErr
+}
+
+func (c *TLSConn) Read(p []byte) (int, error) {
+	if err := c.Handshake(); err != nil {
+		return 0, err
+	}
+	return c.Conn.Read(p)
+}
+
+func (c *TLSConn) Write(p []byte) (int, error) {
+	if err := c.Handshake(); err != nil {
+		return 0, err
+	}
+	return c.Conn.Write(p)
+}
+
+func (c *TLSConn) ConnectionState() tls.ConnectionState {
+	return tls.ConnectionState{Version: tls.VersionTLS13, HandshakeComplete: c.hsDone && c.hsErr == nil}
+}
+func (c *TLSConn) NetConn() net.Conn           { return c.Conn }
+func (c *TLSConn) VerifyHostname(string) error { return nil }
+func (c *TLSConn) OCSPResponse() []byte        { return nil }
+func (c *TLSConn) CloseWrite() error {
+	if h, ok := c.Conn.(interface{ CloseWrite() error }); ok {
+		return h.CloseWrite()
+	}
+	return nil
+}
+
 // VarSnap keeps deep copies of the package-level maps of an instrumented package (taken the first time Restore is
 // called, after all init functions) and puts fresh copies back on every later call, so that whatever a run adds to a
 // process-wide table lazily is gone when the next run starts: every simulated run begins in a cold process.
